@@ -170,8 +170,9 @@ PROPS = {
         level="exploration",
         rule="rapid state machines over a real controller fed by the fake API server and a generated tree (depth <= 3) mixing Subscribe/SubscribeWithFilter/SubscribeForFilter/Clone/CloneWithFilter/CloneForFilter: operations put/del (labels move objects in and out of filters), attach, Refilter over a 10-filter family (equal, overlapping, disjoint, accept-all, accept-none, non-comparable FN), lost watch events followed by gated relists. Quiet mode: double-marker barrier after every operation, then every live node's cache must equal the conjunction of the reference predicates on its path applied to the controller's view, its strict mirror must equal its cache, readiness must match the readiness model. Racy mode: server traffic and Refilter scripts run concurrently under logger-driven schedule perturbation, oracles at a final barrier. Non-trivial = tree with a filtered node below a filtered node, a Refilter on a ready node and an object that crossed a filter boundary by update; distinct = hash of the operation history.",
         assumptions=["controller-level and node filters are wrapped as Or(f, NSName(zz/*)) so that barrier markers pass; oracles ignore namespace zz", "interleavings are perturbed (logger yields/sleeps, GOMAXPROCS), not enumerated"],
-        quick=[J("TestC06_Quiet", checks=500, shards=5), J("TestC06_Racy", checks=500, shards=5, procs=[2, 4, 8, 16, 1]), J("TestC06_FilterSubscriptionModel", checks=600, shards=4, procs=[2, 4, 1, 16])],
-        thorough=[J("TestC06_Quiet", checks=12000, shards=8, timeout=2400), J("TestC06_Racy", checks=12000, shards=8, procs=[1, 2, 4, 16], timeout=2400), J("TestC06_FilterSubscriptionModel", checks=25000, shards=8, procs=[1, 2, 4, 16], timeout=2400)],
+        quick=[J("TestC06_Quiet", checks=500, shards=5), J("TestC06_Racy", checks=500, shards=5, procs=[2, 4, 8, 16, 1]), J("TestC06_FilterSubscriptionModel", checks=400, shards=4, procs=[2, 4, 1, 16]), J("TestC06_FilterSubscriptionEnum", shards=8, env={"VERIF_ENUM_STRIDE": "4"})],
+        thorough=[J("TestC06_Quiet", checks=12000, shards=8, timeout=2400), J("TestC06_Racy", checks=12000, shards=8, procs=[1, 2, 4, 16], timeout=2400), J("TestC06_FilterSubscriptionModel", checks=25000, shards=8, procs=[1, 2, 4, 16], timeout=2400), J("TestC06_FilterSubscriptionEnum", shards=16, timeout=2400),
+                  J("TestC06_FilterSubscriptionEnum", shards=16, env={"VERIF_FSENUM_STEPS": "3", "VERIF_ENUM_STRIDE": "4"}, timeout=2400)],
     ),
     "C15": dict(
         level="exploration",
